@@ -428,7 +428,12 @@ func freshName(reg string, pub bool, n int) string {
 func (f *frig) register(reg, name string) {
 	m := f.models[reg]
 	cur := m.last()
-	tag := fmt.Sprintf("v%d", f.tagN.Add(1))
+	tn := f.tagN.Add(1)
+	tag := fmt.Sprintf("v%d", tn)
+	if reg == "resources" && tn%3 != 0 { // RegisterResources and RegisterResource in turn (entry.go: the tag decides)
+		tag = withVia(tag, "multi")
+		f.r.Count("filter_registrations_through_RegisterResources", 1)
+	}
 	next := make([]mitem, 0, len(cur)+1)
 	found := false
 	for _, it := range cur {
@@ -463,7 +468,11 @@ func (f *frig) unregisterTool(name string) {
 		}
 	}
 	k := m.begin(next)
-	f.in.UnregisterTools(name)
+	if len(next)%2 == 0 {
+		f.in.UnregisterTools(name)
+	} else { // several names in one call: a repeated one and one that was never registered
+		f.in.UnregisterTools("never-registered", name, name)
+	}
 	m.end(k)
 	f.r.Count("filter_unregistrations", 1)
 }
